@@ -121,6 +121,48 @@ theorem foldl_pushValue_calls (es : List Expr) (acc : List Stmt)
     rw [List.foldl_cons, hp, ih _ (fun x hx => h x (List.mem_cons_of_mem _ hx))]
     simp
 
+/-- `expressions_as_statement` only ever builds call statements and `local` statements -/
+def isCallOrLocal : Stmt → Bool
+  | .callStmt _ => true
+  | .localAssign _ _ _ => true
+  | _ => false
+
+theorem mem_of_mem_dropLast' {α : Type} (a : α) : ∀ (l : List α), a ∈ l.dropLast → a ∈ l
+  | [], h => by simp at h
+  | [_], h => by simp at h
+  | x :: y :: rest, h => by
+    simp only [List.dropLast_cons_cons, List.mem_cons] at h
+    rcases h with h | h
+    · exact h ▸ List.mem_cons_self
+    · exact List.mem_cons_of_mem _ (mem_of_mem_dropLast' a (y :: rest) h)
+
+theorem pushValue_shape (acc : List Stmt) (v : Expr) (h : ∀ t ∈ acc, isCallOrLocal t = true) :
+    ∀ t ∈ pushValue acc v, isCallOrLocal t = true := by
+  intro t ht
+  unfold pushValue at ht
+  split at ht
+  · rcases List.mem_append.mp ht with h1 | h1
+    · exact h t h1
+    · simp only [List.mem_singleton] at h1; subst h1; rfl
+  · split at ht
+    · rcases List.mem_append.mp ht with h1 | h1
+      · exact h t (mem_of_mem_dropLast' t _ h1)
+      · simp only [List.mem_singleton] at h1; subst h1; rfl
+    · rcases List.mem_append.mp ht with h1 | h1
+      · exact h t h1
+      · simp only [List.mem_singleton] at h1; subst h1; rfl
+
+theorem foldl_pushValue_shape (es : List Expr) (acc : List Stmt) (h : ∀ t ∈ acc, isCallOrLocal t = true) :
+    ∀ t ∈ es.foldl (fun acc e => pushValue acc (getInner e)) acc, isCallOrLocal t = true := by
+  induction es generalizing acc with
+  | nil => simpa using h
+  | cons e rest ih =>
+    rw [List.foldl_cons]
+    exact ih _ (pushValue_shape acc (getInner e) h)
+
+theorem asStatements_shape (es : List Expr) : ∀ t ∈ asStatements es, isCallOrLocal t = true :=
+  foldl_pushValue_shape es [] (by simp)
+
 theorem asStatements_calls (es : List Expr) (h : ∀ e ∈ es, isCall (getInner e) = true) :
     asStatements es = (es.map getInner).map Stmt.callStmt := by
   simpa [asStatements] using foldl_pushValue_calls es [] h
@@ -205,19 +247,6 @@ theorem evalE_orTrueChain (es : List Expr) (σ : State N) :
       intro a σ''
       rfl
 
-/-- the one-expression form `e and nil` -/
-theorem evalE_andNil (e : Expr) (σ : State N) :
-    evalE call ρ k env (.bin .and e .nil) σ
-      = (evalE call ρ k env e σ).bind fun vs σ' =>
-          if (first vs).truthy then .ok [.nil] σ' else .ok [first vs] σ' := by
-  simp only [evalE]
-  apply bind_congr
-  intro vs σ'
-  by_cases ht : (first vs).truthy = true
-  · simp only [ht, if_true, bind_ok, first_cons]
-  · have hf : (first vs).truthy = false := by simpa using ht
-    simp only [hf, Bool.false_eq_true, if_false]
-
 /-! ### calls whose callee hands back something computed from the arguments -/
 
 theorem bind_ok_id {α : Type} (r : Res N α) : (r.bind fun a σ => .ok a σ) = r := by
@@ -263,24 +292,28 @@ theorem execS_removed_call (f : Expr) (args : List Expr) (fv : Val N) (ret : Lis
   simp only [bind_ok]
   exact (evalEs_discard call ρ k env args σ (fun σ' => Res.ok (Ctl.next env) σ')).symm
 
-theorem expressionsAsExpression_of_length_ne_one (es : List Expr) (h : es.length ≠ 1) :
-    expressionsAsExpression es = orTrueChain es := by
-  match es, h with
-  | [], _ => rfl
-  | [_], h => simp at h
-  | _ :: _ :: _, _ => rfl
+theorem expressionsAsExpression_eq_chain (es : List Expr) : expressionsAsExpression es = orTrueChain es := by
+  cases es <;> rfl
+
+/-- the wrapping of a lone `local _ = …` (F31 fix) does not apply to call statements -/
+theorem wrapLocal_calls (es : List Expr) (h : ∀ e ∈ es, isCall (getInner e) = true) :
+    wrapLocal (expressionsAsStatement es) = expressionsAsStatement es := by
+  rw [expressionsAsStatement_eq_wrap, asStatements_calls es h]
+  match es.map getInner with
+  | [] => rfl
+  | [_] => rfl
+  | _ :: _ :: _ => rfl
 
 /-- EXPRESSION position without `compute_result`, in a single-value context (here: parentheses):
 the kept arguments are evaluated once each, in order, and the value is `nil`, as for a callee
-that returns nothing — provided the number of kept arguments is not one. -/
+that returns nothing. -/
 theorem evalE_paren_removed_call (f : Expr) (args : List Expr) (fv : Val N) (σ : State N)
     (hf : evalE call ρ k env f σ = .ok [fv] σ)
     (hret : ∀ avs σ', evalEs call ρ k env args σ = .ok avs σ' → callVal call ρ k fv avs σ' = .ok [] σ')
-    (hdrop : ∀ e ∈ args, keeps e = false → PureAt call ρ k env e)
-    (hlen : (preserveArgumentsSideEffects .tuple args).length ≠ 1) :
+    (hdrop : ∀ e ∈ args, keeps e = false → PureAt call ρ k env e) :
     evalE call ρ k env (.paren (expressionsAsExpression (preserveArgumentsSideEffects .tuple args))) σ
       = evalE call ρ k env (.paren (.call f none .tuple args)) σ := by
-  rw [expressionsAsExpression_of_length_ne_one _ hlen]
+  rw [expressionsAsExpression_eq_chain]
   simp only [preserveArgumentsSideEffects, argCandidates]
   simp only [evalE]
   rw [evalE_orTrueChain, evalDiscard_filter call ρ k env keeps args hdrop, bind_assoc]
